@@ -67,6 +67,7 @@ func TestTargetBitrateBounded(t *testing.T) {
 			"followed by TWCC or RFC 8888 feedback built from arbitrary arrival patterns (zero, equal and decreasing arrivals, huge gaps, 0..100 % loss, duplicated and empty feedback); "+
 			"invariants checked at quiescence after every feedback; non-trivial = a published change, or a zero inter-arrival / 100 % loss feedback; distinct by configuration and history")
 	rapid.Check(t, func(t *rapid.T) {
+		kit.Idle()
 		levels := []int{5_000, 20_000, 100_000, 150_000, 1_000_000, 5_000_000, 50_000_000, 1_000_000_000}
 		a := rapid.IntRange(0, len(levels)-1).Draw(t, "minIdx")
 		b := rapid.IntRange(a, len(levels)-1).Draw(t, "initIdx")
